@@ -42,6 +42,7 @@ type Solver struct {
 	UnknownN  int
 	Time      time.Duration
 	sinceBoot int
+	seed      int64
 	Restarts  int
 	dump      *queryDump
 }
@@ -94,6 +95,7 @@ func (s *Solver) boot() error {
 	s.send("(set-option :global-declarations true)")
 	s.send("(set-option :produce-models true)")
 	s.send("(set-logic ALL)")
+	s.sendSeed()
 	return nil
 }
 
@@ -421,5 +423,22 @@ func (d *queryDump) record(s *Solver, pc []*Term, extra *Term) {
 	if os.WriteFile(name, []byte(sb.String()), 0o644) == nil {
 		d.files = append(d.files, name)
 		d.pending = true
+	}
+}
+
+// setSeed sets the solver's random seed (kept across restarts).
+func (s *Solver) setSeed(seed int64) {
+	s.seed = seed
+	s.sendSeed()
+}
+
+func (s *Solver) sendSeed() {
+	if s.seed == 0 {
+		return
+	}
+	switch s.kind {
+	case "z3", "z3-new":
+		s.send(fmt.Sprintf("(set-option :smt.random_seed %d)", s.seed%1000000))
+		s.send(fmt.Sprintf("(set-option :sat.random_seed %d)", s.seed%1000000))
 	}
 }
